@@ -251,6 +251,8 @@ pub fn run(run: &mut Run) {
     run.rule = "cases: sprites with 1-3 tilesets (tile sizes 1x1..24x24 incl. non-square and sizes not dividing the canvas, 1..40 tiles, all pixel formats) and tilemap cels of stored size 1x1..12x12 (occasionally 1x300) at tile-aligned offsets from -(stored size) to canvas+1 tiles; standard and non-standard id bitmasks; flip bits on some words. Oracle: tilemap size = ceil(canvas/tile); tile_size/tileset/pixel_offsets/tile_offsets as stored; tile(x,y) over the logical grid + border + extreme coordinates equals the model's stored word & id mask inside the stored area and 0 outside; every canvas pixel of Tilemap::image equals the corresponding pixel of tile_image(tile(x div tw, y div th).id()) with alpha scaled by the opacity product (cells with flip bits excluded); tile_image(i) has the tile size and equals rows [i*th,(i+1)*th) of Tileset::image, which is tw x th*count and equals the decoded stored pixels. non-trivial: a map partly off canvas, or smaller than the logical grid, or a tile size not dividing the canvas; distinct by file hash".into();
     let (lanes, cases) = if run.thorough() { (16, 15000) } else { (16, 3000) };
     run_tapes(run, lanes, cases, 1200, &check);
+    // thorough only: coverage-guided search over generator tapes with the same oracle
+    crate::fuzzstage::fuzz_tapes(run, 1200, 120);
 }
 
 pub fn replay(case: &serde_json::Value) -> CheckResult {
